@@ -26,12 +26,24 @@ CONFIG = dict(
                  "(checked on both sides; otherwise the case is reported as illformed and not run)"],
 )
 CONFIG.update(
-    level_text=("Lean 4 theorems over a method-by-method model of Configuration::run, Block, Loop, Branch, Scope, And/Or/Not and "
-                "with_inner_state with scripted leaves. The model is tied to /repo by building real component trees with the real "
-                "builder/constructors, running Configuration::run and diffing trace, result, scope depth and registry dump against "
-                "the compiled model (K) and against the structured-program semantics (O)."),
-    level_note=("Trusted: Lean kernel; harness + driver printing; association-list model of the registry. Leaves are scripted: the "
-                "theorems are about the control-flow components, not about what shipped leaves do. Loops are bounded by a pass "
-                "bound (fuel) in the model; the theorems hold for every bound. Agreement with the code is checked on the generated "
+    level_text=("Lean 4 theorems (all trees, scripts, pass bounds, caller states) over a method-by-method model of Configuration::run, "
+                "Block, Loop, Branch, Scope, And/Or/Not and State::with_inner_state with scripted leaves: the run equals the "
+                "corresponding structured program init;require;execute over atomic|seq|while|if|{scoped} (run_is_structured_program); "
+                "lifecycle (pre-order inits once, then requires which cannot change state, then execution; failed init/require => "
+                "no exec event); block_order in all three phases; first_error_stops (trace is a prefix of the fault-free run's, the "
+                "error returned is the last event); loop_passes (iff-characterisation: condition re-initialised once, n passes, n+1 "
+                "tests), loop_pass_count (n read off the script), loop_counter (+1 per completed pass; loops in scopes count on their "
+                "own counter: scope_keeps_counters, via a verified static analysis); branch_sem; scope_fresh_each_entry; "
+                "scope_discipline (depth kept on every outcome incl. errors); caller_state_kept; scope_locals_gone; shadow_restored; "
+                "outer_writes_persist (a scope that inserts nothing is transparent). The model is tied to /repo by building real "
+                "component trees with the real builder/constructors, reading the built tree back through the code's own Serialize, "
+                "running Configuration::run and diffing trace, result, scope depth and registry dump against the compiled model (K) "
+                "and against the structured-program semantics (O)."),
+    level_note=("Trusted: Lean kernel; harness + driver printing; association-list model of the registry. Leaves are scripted "
+                "(TraceLeaf/ScriptCond of the harness): the theorems are about the control-flow components, not about what shipped "
+                "leaves do; eyre errors are abstracted to (leaf, phase) / missing counter. And/Or/Not are modelled as written "
+                "(every child evaluated, no short-circuit), so a change of their evaluation strategy shows up here as an order "
+                "deviation. Loops are bounded by a pass bound in the model; every theorem holds for every bound. "
+                "caller_state_kept states presence, not the value last written. Agreement with the code is checked on the generated "
                 "cases only."),
 )
